@@ -24,7 +24,8 @@ CHECKS = {
     "C16": dict(
         text="Coq theorems: the checked encoder model rejects every out-of-range program and whatever it accepts decodes to "
              "the same program; accepted ranges are the published ones (layouts = reference); accept/reject and bytes of the "
-             "model are compared with the implementation on out-of-range streams through direct, text and SDK entry points.",
+             "model are compared with the implementation on out-of-range streams through direct, text and SDK entry points, and on object "
+             "histories that make an already serialised subroutine unrepresentable.",
         ref="4/C16", tech="Coq proof (reject-or-roundtrip) + correspondence on out-of-range streams"),
 }
 
